@@ -76,7 +76,7 @@ namespace vh
                 li.cell(cellidx(in, k, arity));
                 bool bad = false;
                 for (size_t i = 1; i < N; ++i)
-                    if (!same_bits(o1[i], o1[0]))
+                    if (!same_bits(o1[i], o1[0]) && !(o1[i] != o1[i] && o1[0] != o1[0])) // NaN payloads are not claimed
                         bad = true;
                 // bitwise identity; any NaN equals any NaN only if both are NaN of the same op (payload not claimed)
                 bool eq = same_bits(o1[0], o[k]) || (o1[0] != o1[0] && o[k] != o[k]);
